@@ -14,6 +14,7 @@ import (
 	"path/filepath"
 	"reflect"
 	"sort"
+	"strings"
 	"testing"
 	"time"
 	"unicode/utf16"
@@ -245,7 +246,7 @@ const rimVariableName = "FirmwareRIM"
 
 func TestEmittedEvents(t *testing.T) {
 	const name = "events/emitted"
-	ev.Rule(name, "endorse.VirtualFirmware with SnapshotDir set (in-memory VersionControl double, fake CA/signer, deterministic Random) over fwgen valid images (1-4 pages, SEV and/or TDX metadata), image name from a pool. Oracle on the committed <image>.evts.pb: parses to exactly two events; each starts with the SP800-155 Event3 signature and UnmarshalFromBytes/MarshalToBytes are mutually inverse on it (bytes->struct->bytes identical, struct->bytes->struct deep-equal); exactly one RIMLocationVariable whose locator exel.Locate hands to the variable reader as (a2858e46-a37f-456a-8c79-0c1fe48b65ff, UCS-2 'FirmwareRIM'+NUL), exactly one RIMLocationURI whose locator == GCETcbURL('ovmf_x64_csm/'+hex(sha384(image))+'.fd.signed') == bucket literal; both carry the same manifest GUID; then the two events are wrapped in a generated CryptoAgileLog (drawn order, 0-4 filler events) and extract.Endorsement (GCE manufacturer filter, real efivarfs reader on a scratch root) must (mode var) return the variable file's payload byte for byte with an empty getter log, (mode uri-only: variable event left out) fetch exactly the URI locator and return its body, (mode var-missing) request nothing but I1-conforming URLs. non-trivial = all (every case runs the signer and the extractor); distinct = (image digest, mode, log order)")
+	ev.Rule(name, "endorse.VirtualFirmware with SnapshotDir set (in-memory VersionControl double, fake CA/signer, deterministic Random) over fwgen valid images (1-4 pages, SEV and/or TDX metadata), image name from a pool. Oracle on the committed <image>.evts.pb: parses to exactly two events; each starts with the SP800-155 Event3 signature and UnmarshalFromBytes/MarshalToBytes are mutually inverse on it (bytes->struct->bytes identical, struct->bytes->struct deep-equal); exactly one RIMLocationVariable whose locator exel.Locate hands to the variable reader as (a2858e46-a37f-456a-8c79-0c1fe48b65ff, UCS-2 'FirmwareRIM'+NUL), exactly one RIMLocationURI whose locator == GCETcbURL('ovmf_x64_csm/'+hex(sha384(image))+'.fd.signed') == bucket literal; both carry the same manifest GUID; then the two events are wrapped in a generated CryptoAgileLog (drawn order, 0-4 filler events) and extract.Endorsement (GCE manufacturer filter, real efivarfs reader on a scratch root) must (mode var) return the variable file's payload byte for byte with an empty getter log, (mode uri-only: variable event left out) request nothing but the URI locator and, if it succeeds, return that body, (mode var-missing: FirmwareRIM absent from efivarfs, no quote, no provider) request nothing at all - the selected locator is the variable one, so the URI locator is not to be fetched (key I1/eventlog-uri-not-selected), (mode var-missing+entry: the same with a supplied raw SEV-SNP report whose certificate table carries the GCE entry) return that entry with an empty getter log. non-trivial = all (every case runs the signer and the extractor); distinct = (image digest, mode, log order)")
 	n := ev.Scale(100, 1600)
 	checks(n)
 	root := t.TempDir()
@@ -262,8 +263,11 @@ func TestEmittedEvents(t *testing.T) {
 			return
 		}
 		if err != nil {
-			// fwgen promises accepted images; a refusal is a harness/generator matter, not C16's.
-			t.Fatalf("harness: snapshot run refused a fwgen valid image: %v", err)
+			// fwgen promises accepted images; a refusal says nothing about the emitted events. Counted,
+			// not failed: what the signer accepts is the subject of other properties.
+			ev.Note("events/emitted: a snapshot run refused a fwgen image (inconclusive case): %v", err)
+			ev.Class(name, "inconclusive/snapshot-run-refused")
+			return
 		}
 		blob, ok := files[fwPath+".evts.pb"]
 		if !ok {
@@ -349,7 +353,7 @@ func TestEmittedEvents(t *testing.T) {
 		}
 
 		// Feed the emitted events back to the extractor.
-		mode := rapid.SampledFrom([]string{"var", "var", "uri-only", "var-missing"}).Draw(t, "mode")
+		mode := rapid.SampledFrom([]string{"var", "var-missing+entry", "uri-only", "var-missing", "var"}).Draw(t, "mode")
 		var events []*eventlog.TCGPCREvent2
 		for i, e := range parsed {
 			if mode == "uri-only" && e == varEvt {
@@ -377,7 +381,7 @@ func TestEmittedEvents(t *testing.T) {
 		if err := os.MkdirAll(efi, 0o755); err != nil {
 			t.Fatalf("harness: %v", err)
 		}
-		if mode != "var-missing" {
+		if !strings.HasPrefix(mode, "var-missing") {
 			if err := os.WriteFile(filepath.Join(efi, rimVariableName+"-"+googleVariableGUID), append([]byte{7, 0, 0, 0}, endorsement...), 0o644); err != nil {
 				t.Fatalf("harness: %v", err)
 			}
@@ -389,21 +393,34 @@ func TestEmittedEvents(t *testing.T) {
 		g := &recGetter{only: map[string][]byte{wantURI: append([]byte("FETCHED:"), endorsement...)}}
 		var out []byte
 		var xerr error
+		var suppliedQuote, suppliedEntry []byte
+		if mode == "var-missing+entry" {
+			var tr quoteTruth
+			suppliedQuote, tr = renderQuote(quoteSpec{Kind: "snp", Format: "raw", MLen: fullLength, Seed: 1, Entry: true}, "supplied")
+			suppliedEntry = tr.Entry
+		}
 		if pan := safely(func() {
 			out, xerr = extract.Endorsement(&extract.Options{
 				Getter:               g,
 				FirmwareManufacturer: extract.GCEFirmwareManufacturer,
 				EventLogLocation:     logPath,
 				UEFIVariableReader:   exel.MakeEfiVarFSReader(efi),
+				Quote:                suppliedQuote,
 			})
 		}); pan != nil {
 			ev.Violation(t, "C16/panic", "extract.Endorsement panicked on the emitted events: %v", pan)
 			return
 		}
-		allowed := map[string]bool{wantURI: true}
+		// The URI locator may only be fetched when it is what the log's precedence selects: in the
+		// modes that keep the variable event the variable locator is selected, resolvable or not, and
+		// with no quote, no provider and no forced fetch there is nothing else to ask the network for.
+		allowed := map[string]bool{}
+		if mode == "uri-only" {
+			allowed[wantURI] = true
+		}
 		class := mode
 		for _, u := range g.urls {
-			if key, msg := judgeURL(u, allowed); key != "" {
+			if key, msg := judgeURLWithLog(u, allowed, map[string]bool{wantURI: true}); key != "" {
 				ev.Violation(t, key, "emitted events, mode %s, log order %s: %s (result %q, err %v)", mode, order, msg, clip(out), xerr)
 				class = mode + "/known-violation"
 			}
@@ -423,8 +440,23 @@ func TestEmittedEvents(t *testing.T) {
 					return
 				}
 			case "uri-only":
-				if xerr != nil || !bytes.Equal(out, g.only[wantURI]) || len(g.urls) != 1 || g.urls[0] != wantURI {
-					ev.Violation(t, "C16/events/uri-not-resolved", "log with only the emitted URI event: got %q, err %v, requests %v; want the body of %s", clip(out), xerr, g.urls, wantURI)
+				// Every request was the emitted URI (judged above). Fetching it is what the repository
+				// documents; an implementation that refuses to touch the network without a forced fetch
+				// returns an error instead. Either way a success is the body of that URI.
+				if xerr == nil && !bytes.Equal(out, g.only[wantURI]) {
+					ev.Violation(t, "C16/events/uri-not-resolved", "log with only the emitted URI event: got %q, requests %v; a success has to be the body of %s", clip(out), g.urls, wantURI)
+					return
+				}
+				if xerr != nil {
+					class = mode + "/not-fetched"
+				}
+			case "var-missing+entry":
+				if len(g.urls) != 0 {
+					ev.Violation(t, "C16/I2/network-used-despite-local-evidence", "emitted events (log order %s), FirmwareRIM missing, supplied quote with the GCE certificate-table entry: getter was asked for %v", order, g.urls)
+					return
+				}
+				if xerr != nil || !bytes.Equal(out, suppliedEntry) {
+					ev.Violation(t, "C16/I2/local-evidence-not-returned", "emitted events (log order %s), FirmwareRIM missing, supplied quote with the GCE certificate-table entry: got %q, err %v; want the entry", order, clip(out), xerr)
 					return
 				}
 			case "var-missing":
